@@ -555,6 +555,6 @@ package redis
 //@   loop 0 invariant forall k int :: 0 <= k && k < len(resp.Array) && (!isvaluepos(command, k) || k >= i) ==> resp.Array[k].Text == old(resp.Array[k].Text)
 //@   loop 0 invariant @below-threshold forall k int :: 0 <= k && k < len(resp.Array) && len(old(resp.Array[k].Text)) < int(cfg.Threshold) ==> resp.Array[k].Text == old(resp.Array[k].Text)
 //@   loop 0 invariant @already-compressed-skipped forall k int :: 0 <= k && k < len(resp.Array) && old(startsmagic(resp.Array[k].Text)) ==> resp.Array[k].Text == old(resp.Array[k].Text)
-//@   loop 0 invariant @unvisited-bytes-intact forall k int :: i <= k && k < len(resp.Array) ==> old(resp.Array[k].Text)[0] == old(resp.Array[k].Text[0]) && old(resp.Array[k].Text)[1] == old(resp.Array[k].Text[1]) && old(resp.Array[k].Text)[2] == old(resp.Array[k].Text[2])
+//@   loop 0 invariant @unvisited-bytes-intact forall k int :: i <= k && k < len(resp.Array) && len(old(resp.Array[k].Text)) >= 3 ==> old(resp.Array[k].Text)[0] == old(resp.Array[k].Text[0]) && old(resp.Array[k].Text)[1] == old(resp.Array[k].Text[1]) && old(resp.Array[k].Text)[2] == old(resp.Array[k].Text[2])
 //@   loop 0 invariant resp.Array == old(resp.Array)
 //@   loop 0 invariant forall k int :: 0 <= k && k < len(resp.Array) ==> len(resp.Array[k].Text) <= len(old(resp.Array[k].Text)) && base(resp.Array[k].Text) == base(old(resp.Array[k].Text)) && off(resp.Array[k].Text) == off(old(resp.Array[k].Text))
